@@ -19,7 +19,8 @@ def sh(cmd, cwd=None, timeout=3600):
 
 
 def main():
-    only = sys.argv[1:]
+    only = [a for a in sys.argv[1:] if not a.startswith("--")]
+    harmless_only = "--harmless-only" in sys.argv
     ids = sorted(d for d in os.listdir(os.path.join(VERIF, "seeded"))
                  if os.path.isfile(os.path.join(VERIF, "seeded", d, "meta.json")))
     if only:
@@ -32,6 +33,9 @@ def main():
     if out.strip():
         print("repository not clean:", out)
         return 2
+    if harmless_only:
+        ids = []
+        results = json.load(open(path)) if os.path.exists(path) else {}
     for sid in ids:
         meta = json.load(open(os.path.join(VERIF, "seeded", sid, "meta.json")))
         prop = meta["property"]
